@@ -248,6 +248,7 @@ theorem prepare_filter_spec (s : Sequence) (P : List (Dict Chan ChOutF)) (hP : s
 
 /-! ### tau ≡ f_cut at the level of the setter -/
 
+/-- helper (C11, tau ≡ f_cut): `key in dict` is `dict.get(key) is not None` on the model dictionaries -/
 theorem has_eq_isSome {κ α : Type} [DecidableEq κ] (d : Dict κ α) (k : κ) : Dict.has d k = (Dict.get? d k).isSome := by
   unfold Dict.has Dict.get?
   induction d with
@@ -272,20 +273,62 @@ theorem setFilter_tau_equiv_fcut_forge (s : Sequence) (ch : Chan) (kind : String
   · by_cases h2 : isInt = true
     · simp only [h1, h2, not_true_eq_false, if_false, ne_eq, and_false, false_and, reduceCtorEq,
         not_false_eq_true, SeqCore.setSpec]
-      refine Sequence.forge_congr _ _ d f t rfl rfl ?_ ?_ ?_
+      refine Sequence.g4_forge_congr _ _ d f t rfl rfl ?_ ?_ ?_
       · simp only [has_eq_isSome]
-        rw [Dict.get?_upsert_other _ _ _ _ (Sequence.keyOf_ne_SR ch _).symm,
-          Dict.get?_upsert_other _ _ _ _ (Sequence.keyOf_ne_SR ch _).symm]
+        rw [Dict.get?_upsert_other _ _ _ _ (Sequence.g4_keyOf_ne_SR ch _).symm,
+          Dict.get?_upsert_other _ _ _ _ (Sequence.g4_keyOf_ne_SR ch _).symm]
       · intro ch'
         simp only [SeqCore.delayOf]
-        rw [Dict.get?_upsert_other _ _ _ _ (Sequence.keyOf_delay_ne_filter ch ch'),
-          Dict.get?_upsert_other _ _ _ _ (Sequence.keyOf_delay_ne_filter ch ch')]
+        rw [Dict.get?_upsert_other _ _ _ _ (Sequence.g4_keyOf_delay_ne_filter ch ch'),
+          Dict.get?_upsert_other _ _ _ _ (Sequence.g4_keyOf_delay_ne_filter ch ch')]
       · intro ch'
         have hsr : ∀ v, SeqCore.getSR ({ s with awgspecs := Dict.upsert s.awgspecs (keyOf ch "filtercompensation") v } : Sequence)
             = s.getSR := by
           intro v
           simp only [SeqCore.getSR]
-          rw [Dict.get?_upsert_other _ _ _ _ (Sequence.keyOf_ne_SR ch _).symm]
+          rw [Dict.get?_upsert_other _ _ _ _ (Sequence.g4_keyOf_ne_SR ch _).symm]
+        by_cases hk : keyOf ch' "filtercompensation" = keyOf ch "filtercompensation"
+        · apply tau_equiv_fcut _ _ ch' kind order fc hfc
+          · rw [hsr, hsr]
+          · rw [hk]; exact Dict.get?_upsert_self _ _ _
+          · rw [hk]; exact Dict.get?_upsert_self _ _ _
+        · simp only [SeqCore.filterOf]
+          rw [Dict.get?_upsert_other _ _ _ _ hk, Dict.get?_upsert_other _ _ _ _ hk]
+          simp only [hsr]
+    · simp [h2]
+  · have h1' : kind ∉ Gen.filterKinds := by simpa using h1
+    simp [h1']
+
+/-- **the same for the AWG output paths**: after `setChannelFilterCompensation(…, tau=1/f_cut)` and
+    after `(…, f_cut=f_cut)`, `_prepareForOutputting` — the front end of `outputForAWGFile` and the
+    SEQX output methods, which holds the duplicate filter loop — returns the same result -/
+theorem setFilter_tau_equiv_fcut_prepare (s : Sequence) (ch : Chan) (kind : String) (order : ℤ) (isInt : Bool)
+    (fc : ℚ) (hfc : fc ≠ 0) :
+    Sequence.prepareForOutputting (s.setChannelFilterCompensation ch kind order isInt (.num fc) .none).st =
+      Sequence.prepareForOutputting (s.setChannelFilterCompensation ch kind order isInt .none (.num (1 / fc))).st := by
+  unfold SeqCore.setChannelFilterCompensation
+  by_cases h1 : Gen.filterKinds.contains kind = true
+  · by_cases h2 : isInt = true
+    · simp only [h1, h2, not_true_eq_false, if_false, ne_eq, and_false, false_and, reduceCtorEq,
+        not_false_eq_true, SeqCore.setSpec]
+      refine Sequence.g4_prepare_congr _ _ rfl rfl ?_ ?_ ?_ ?_
+      · simp only [has_eq_isSome]
+        rw [Dict.get?_upsert_other _ _ _ _ (Sequence.g4_keyOf_ne_SR ch _).symm,
+          Dict.get?_upsert_other _ _ _ _ (Sequence.g4_keyOf_ne_SR ch _).symm]
+      · intro ch'
+        simp only [has_eq_isSome]
+        rw [Dict.get?_upsert_other _ _ _ _ (Sequence.g4_keyOf_amplitude_ne_filter ch ch'),
+          Dict.get?_upsert_other _ _ _ _ (Sequence.g4_keyOf_amplitude_ne_filter ch ch')]
+      · intro ch'
+        simp only [SeqCore.delayOf]
+        rw [Dict.get?_upsert_other _ _ _ _ (Sequence.g4_keyOf_delay_ne_filter ch ch'),
+          Dict.get?_upsert_other _ _ _ _ (Sequence.g4_keyOf_delay_ne_filter ch ch')]
+      · intro ch'
+        have hsr : ∀ v, SeqCore.getSR ({ s with awgspecs := Dict.upsert s.awgspecs (keyOf ch "filtercompensation") v } : Sequence)
+            = s.getSR := by
+          intro v
+          simp only [SeqCore.getSR]
+          rw [Dict.get?_upsert_other _ _ _ _ (Sequence.g4_keyOf_ne_SR ch _).symm]
         by_cases hk : keyOf ch' "filtercompensation" = keyOf ch "filtercompensation"
         · apply tau_equiv_fcut _ _ ch' kind order fc hfc
           · rw [hsr, hsr]
